@@ -19,6 +19,7 @@ import (
 	"strings"
 
 	"github.com/gofiber/fiber/v2"
+	"github.com/versity/versitygw/backend"
 	"github.com/versity/versitygw/metrics"
 	"github.com/versity/versitygw/s3api/controllers"
 	"github.com/versity/versitygw/s3api/utils"
@@ -39,6 +40,11 @@ func DecodeURL(logger s3log.AuditLogger, mm *metrics.Manager) fiber.Handler {
 			if seg == "." || seg == ".." {
 				return controllers.SendResponse(ctx, s3err.GetAPIError(s3err.ErrInvalidURI), &controllers.MetaOpts{Logger: logger, MetricsMng: mm})
 			}
+		}
+		// the namespace the filesystem backends reserve for themselves inside a
+		// bucket is not addressable as an object key
+		if parts := strings.SplitN(strings.TrimPrefix(unescp, "/"), "/", 2); len(parts) == 2 && backend.IsReservedKey(parts[1]) {
+			return controllers.SendResponse(ctx, s3err.GetAPIError(s3err.ErrInvalidURI), &controllers.MetaOpts{Logger: logger, MetricsMng: mm})
 		}
 		// version ids and upload ids become file names in the backends: they
 		// have to be single path components
